@@ -345,6 +345,15 @@ func c16GenCase(c *Ctx, stream string, i int, malformed bool) *c16Case {
 		o.Mutate = r.Chance(1, 2)
 		o.DropPrices = r.Chance(1, 3)
 	}
+	lifecycle := stream == "lifecycle"
+	if lifecycle {
+		// accounts that hold positions over night, are emptied (wholly, partly, in several bookings), closed on the emptying
+		// day or later, re-opened and used again, over more days than the other streams have
+		o.BookOut = true
+		o.MaxDays = r.Range(3, 14)
+		o.MaxAccounts = r.Range(2, 6)
+		o.SpanDays = Pick(r, []int{3, 6, 13, 20, 40, 400})
+	}
 	j, tags := GenJournal(r, o)
 	tc := &c16Case{Stream: stream, Idx: i, J: j, V: val, Tags: tags}
 	if r.Chance(1, 6) {
@@ -377,6 +386,42 @@ func c16GenCase(c *Ctx, stream string, i int, malformed bool) *c16Case {
 			if !r.Chance(1, 5) {
 				pd.Price = fmt.Sprintf("%d.%0*d", r.Range(0, 300), r.Range(1, 4), r.Range(1, 9))
 			}
+			j.Dirs = append(j.Dirs, pd)
+			tc.Tags = append(tc.Tags, "re-priced")
+		}
+	}
+	if lifecycle {
+		// prices keep moving while accounts are emptied, closed and re-opened: further quotes of already quoted pairs on the
+		// quote's day or any later day of the journal (also between its days and after the last one); with such a quote on
+		// a closing day the closed account's last value adjustment is due, after it none may follow
+		var prices []JDir
+		hi := 0
+		for _, d := range j.Dirs {
+			if d.Kind == 'p' {
+				prices = append(prices, d)
+			}
+			hi = max(hi, d.Date)
+		}
+		var days []int
+		seen := map[int]bool{}
+		for _, d := range j.Dirs {
+			if !seen[d.Date] {
+				seen[d.Date] = true
+				days = append(days, d.Date)
+			}
+		}
+		days = append(days, hi+1, hi+2)
+		for k := r.Range(0, 2*len(days)); k > 0 && len(prices) > 0; k-- {
+			pd := Pick(r, prices)
+			day := Pick(r, days)
+			if r.Chance(1, 4) {
+				day = pd.Date + r.Intn(hi-pd.Date+3)
+			}
+			if day < pd.Date {
+				continue
+			}
+			pd.Date = day
+			pd.Price = fmt.Sprintf("%d.%0*d", r.Range(0, 300), r.Range(1, 4), r.Range(1, 9))
 			j.Dirs = append(j.Dirs, pd)
 			tc.Tags = append(tc.Tags, "re-priced")
 		}
@@ -468,6 +513,8 @@ func c16Check(c *Ctx, bt *Batch, tc *c16Case, agreed *bool) {
 		switch t {
 		case "sort-ties", "user-account-with-valuation-prefix", "price-chained", "price-inverse", "close", "unicode", "zero-amount", "negative-amount":
 			sig = append(sig, t[:4])
+		case "book-out", "close-on-emptying-day":
+			sig = append(sig, t)
 		}
 		if strings.HasPrefix(t, "mutated:") || strings.HasSuffix(t, "-valuation") || strings.HasSuffix(t, "-flag") || strings.HasPrefix(t, "unpriced") || t == "zero-price" {
 			sig = append(sig, t)
@@ -640,6 +687,7 @@ func runC16(c *Ctx) {
 	n := c.N(10000, 300000)
 	d1 := runStream("transcode", 0, n, false)
 	d2 := runStream("malformed", 0, n/4, true)
+	d2 = append(d2, runStream("lifecycle", 0, n/4, false)...)
 	runDecStream(c, c.N(2000, 20000))
 	// directed search: when code and model differ, widen the round (3x the budget of the stream, fresh indices):
 	// the invariants are evaluated on the real output of every additional case
